@@ -582,8 +582,12 @@ class MailboxWorld:
                     # messages are still on their way up (they are lost and
                     # must be re-sent after the reconnect)
                     up = len(s_end.inflight) + len(c_end.sendbuf)
+                    closing = any(_msg_type(m) in ("close", "release")
+                                  for m in list(s_end.inflight)[:4])
+                    # ... or while a close/release is on its way up (the
+                    # client must re-send it after the reconnect)
                     evs.append(("cut:" + lab, lambda l=link: self._f_cut(l),
-                                6 if up >= 2 else 1))
+                                8 if closing else (6 if up >= 2 else 1)))
                 if "half_open" in kinds and c_end.made and s_end.made:
                     evs.append(("half_open_c:" + lab,
                                 lambda l=link: self._f_cut(l, ("c",))))
